@@ -168,8 +168,11 @@ def run_one(job):
         else:
             # do the project's tests notice?
             shutil.copytree(REPO + '/test', tmp + '/test', ignore=shutil.ignore_patterns('__pycache__'))
-            r = subprocess.run(PYTEST, cwd=tmp, capture_output=True, text=True, timeout=900)
-            tail = (r.stdout.strip().splitlines() or ['?'])[-1]
+            try:
+                r = subprocess.run(PYTEST, cwd=tmp, capture_output=True, text=True, timeout=180)
+                tail = (r.stdout.strip().splitlines() or ['?'])[-1]
+            except subprocess.TimeoutExpired:
+                tail = 'tests hang (timeout)'
             rec['pytest'] = tail[:80]
             rec['status'] = 'survived' if ' 30 passed' in tail and '3 failed' in tail else 'tests-notice'
         return rec
